@@ -22,8 +22,9 @@ Note(clause, site, cond) ==
 NoNote == UNCHANGED <<viol, nviol>>
 
 (* a round costs at most a dial timeout plus a request timeout; a put adds one replication round *)
-Bound(kind) == (IF kind = "put" THEN 2 * MaxIter + 1 ELSE 2 * MaxIter) * Ev.timeout + Slack
-StopBound == (Ev.peers + 1) * Ev.timeout + Slack
+(* real-time runs on a loaded machine get their bounds multiplied by Ev.mult (1 in virtual time) *)
+Bound(kind) == Ev.mult * ((IF kind = "put" THEN 2 * MaxIter + 1 ELSE 2 * MaxIter) * Ev.timeout + Slack)
+StopBound == Ev.mult * ((Ev.peers + 1) * Ev.timeout + Slack)
 TooLong == {i \in 1..Len(Ev.ops) : Ev.ops[i]["end"] - Ev.ops[i].start > Bound(Ev.ops[i].kind)}
 
 Run == /\ Ev.ev = "Run" /\ nops' = nops + Ev.issued + 1
